@@ -68,6 +68,26 @@ func init() {
 	models["strings.EqualFold"] = func(f *Frame, st *State, e *ast.CallExpr, recv *Term, args []*Term, sig *types.Signature) []*Term {
 		return []*Term{Eq(f.c.strLower(args[0]), f.c.strLower(args[1]))}
 	}
+	// deterministic string predicates (uninterpreted, but functions of their arguments)
+	for _, n := range []string{"strings.Contains", "strings.HasSuffix", "strings.Index", "strings.TrimSpace", "strings.TrimPrefix", "strings.TrimSuffix", "strings.ToUpper"} {
+		name := n
+		models[name] = func(f *Frame, st *State, e *ast.CallExpr, recv *Term, args []*Term, sig *types.Signature) []*Term {
+			return f.uninterpCall(st, "pure!"+name, nil, args, sig)
+		}
+	}
+	// error.Error(): a function of the error value
+	models[".error.Error"] = func(f *Frame, st *State, e *ast.CallExpr, recv *Term, args []*Term, sig *types.Signature) []*Term {
+		return f.uninterpCall(st, "pure!error.Error", nil, []*Term{recv}, sig)
+	}
+	// the agent's RPC delegate: any error may come back; it touches nothing of the local state. The error of the
+	// most recent call is remembered for specifications (lastRPCErr()).
+	models[consulMod+"/agent/local.rpc.RPC"] = func(f *Frame, st *State, e *ast.CallExpr, recv *Term, args []*Term, sig *types.Signature) []*Term {
+		rs := f.havocResults(st, sig)
+		h := f.c.heapGet(st, "G!lastRPCErr", ArrSort(SInt, SIfc))
+		f.c.heapSet(st, "G!lastRPCErr", Store(h, IntLit(0), rs[0]))
+		f.c.note("RPC delegate: arbitrary error result, no effect on local state (A-RPC)")
+		return rs
+	}
 	models["bytes.Equal"] = func(f *Frame, st *State, e *ast.CallExpr, recv *Term, args []*Term, sig *types.Signature) []*Term {
 		return []*Term{Eq(args[0], args[1])}
 	}
